@@ -248,6 +248,8 @@ def to_line(c):
         if c.get("direct"):
             return "C15 pathd %s %s %s" % (enc_rep(r, m), enc_hop(c["direct"]), " ".join(enc_hop(h) for h in c["hops"]))
         return ("C15 path %s %s" % (enc_rep(r, m), " ".join(enc_hop(h) for h in c["hops"]))).rstrip()
+    if c["op"] == "hist":
+        return "C15 hist " + " ".join(enc_rep(x["start"], lab_map(x["start"])) + " " + enc_hop(x["hop"]) for x in c["calls"])
     if c["op"] == "pred":
         return "C15 pred " + enc_rep(c["start"])
     if c["op"] == "chk":
@@ -390,8 +392,78 @@ def canon(x, kind, m=None, index=None):
     raise ValueError(kind)
 
 
-def apply_hop(h, x):
+def fresh_dp():
+    """an independent, freshly executed copy of sktime/utils/data_processing.py (from the tree under test): module-level
+    state of the copy is what a new process would have.  The imported module itself is never reloaded, so whatever earlier
+    calls left behind in it stays there."""
+    import importlib.util
     import sktime.utils.data_processing as dp
+    spec = importlib.util.spec_from_file_location("_c15_fresh_data_processing", dp.__file__)
+    mod = importlib.util.module_from_spec(spec)
+    spec.loader.exec_module(mod)
+    return mod
+
+
+def fingerprint(mod):
+    """module-level state of a data_processing module: data globals, and for every function its default arguments, attributes
+    and lru_cache statistics.  Unchanged fingerprint = the calls so far left nothing behind that these places can hold."""
+    import types
+    items = []
+    for k, v in sorted(vars(mod).items()):
+        if k.startswith("__") and k != "__all__":
+            continue
+        if isinstance(v, types.ModuleType) or isinstance(v, type):
+            continue
+        if isinstance(v, types.FunctionType) or hasattr(v, "__wrapped__"):
+            f = getattr(v, "__wrapped__", v)
+            ci = v.cache_info() if hasattr(v, "cache_info") else None
+            items.append((k, repr(getattr(f, "__defaults__", None)), repr(getattr(f, "__kwdefaults__", None)),
+                          repr(sorted(getattr(v, "__dict__", {}).items(), key=lambda kv: kv[0]) if not hasattr(v, "__wrapped__") else None), repr(ci)))
+        elif callable(v):
+            continue
+        else:
+            items.append((k, repr(v)))
+    return repr(items)
+
+
+def get_fresh():
+    """a fresh copy of the module; the previous copy is reused as long as its fingerprint is still the virgin one"""
+    if _state.get("virgin") is None:
+        _state["fresh"] = fresh_dp()
+        _state["virgin"] = fingerprint(_state["fresh"])
+    elif fingerprint(_state["fresh"]) != _state["virgin"]:
+        _state["fresh"] = fresh_dp()
+    return _state["fresh"]
+
+
+PERTURB = [
+    ("N", ["nl", "case_id", "reading_id", "dim_id"]), ("N", ["nl", "i", None, "d"]), ("N", ["nm", "who", "when"]),
+    ("N", ["n2", "pd"]), ("N", ["n3"]), ("A", ["3n", ["p", "q"], "R"]), ("A", ["3m", "who", "when", ["p", "q"]]),
+    ("M", ["m3", "a", "b"]), ("M", ["mn", "a", "R"]), ("L", ["ln", "x", "y", "z", ["p", "q"]]), ("A", ["32"]), ("T", ["2n", ["only"], "S"]),
+]
+_state = {"perturbed": False, "virgin": None, "fresh": None, "count": 0}
+SAMPLE = 4          # every SAMPLE-th conversion case is re-run in a fresh module state even when no state change is visible
+
+
+def perturb(dp=None):
+    """the standard perturbing call sequence: every converter once with NON-default optional arguments (custom id-column /
+    level / column names, array cells) on a small panel.  It runs once in the imported module before the first case of a
+    process, so no case is ever evaluated in a virgin module: a result that differs from the result in a fresh copy depends
+    on earlier calls."""
+    import random
+    r = random.Random(7)
+    vals = [[[1.0, 2.0, 3.0], [4.0, 5.0, 6.0]], [[7.0, 8.0, 9.0], [10.0, 11.0, 12.0]]]
+    for kind, hop in PERTURB:
+        rep = start_rep(r, kind, vals, ["u", "v"], levels=("a", "b"), longcols=("x", "y", "z"))
+        try:
+            apply_hop(hop, build(rep), dp)
+        except Exception:
+            pass
+
+
+def apply_hop(h, x, dp=None):
+    if dp is None:
+        import sktime.utils.data_processing as dp
     op = h[0]
     if op == "n3":
         return dp.from_nested_to_3d_numpy(x)
@@ -551,32 +623,67 @@ def select3(v, via):
     return v
 
 
+def _run_path(c, dp):
+    outs = []
+    try:
+        x = realize(c)
+    except Exception as e:          # harness cannot even build the container: visible, not silent
+        return "X:build:" + type(e).__name__ + ":" + str(e)[:120].replace(" ", "_")
+    m = lab_map(c["start"])
+    index = c["start"].get("index")
+    for h in c["hops"]:
+        try:
+            x = apply_hop(h, x, dp)
+            outs.append(canon(x, OUT[h[0]], m, index))
+        except Exception as e:
+            outs.append(canon_err(e))
+            break
+    s = enc_list(" > ", outs)
+    if c.get("direct"):
+        try:
+            d = canon(apply_hop(c["direct"], realize(c), dp), OUT[c["direct"][0]], m, index)
+        except Exception as e:
+            d = canon_err(e)
+        s += " || " + d
+    return s
+
+
+def _run_hist(c, dp_shared):
+    """every call of the history: in the shared module (state accumulates) and, when dp_shared is None, each in its own fresh copy"""
+    outs = []
+    for call in c["calls"]:
+        dp = dp_shared if dp_shared is not None else get_fresh()
+        try:
+            x = apply_hop(call["hop"], build(call["start"]), dp)
+            outs.append(canon(x, OUT[call["hop"][0]], lab_map(call["start"]), call["start"].get("index")))
+        except Exception as e:
+            outs.append(canon_err(e))
+    return enc_list(" ; ", outs)
+
+
 def run_real(c):
     import sktime.utils.data_processing as dp
+    if not _state["perturbed"]:
+        _state["perturbed"] = True
+        perturb()
+    if c["op"] == "hist":
+        seq = _run_hist(c, fresh_dp())             # one process state for the whole history
+        alone = _run_hist(c, None)                 # every call in a fresh state
+        return seq if seq == alone else seq + " %% " + alone
     if c["op"] == "path":
-        outs = []
-        try:
-            x = realize(c)
-        except Exception as e:          # harness cannot even build the container: visible, not silent
-            return "X:build:" + type(e).__name__ + ":" + str(e)[:120].replace(" ", "_")
-        m = lab_map(c["start"])
-        index = c["start"].get("index")
-        for h in c["hops"]:
-            try:
-                x = apply_hop(h, x)
-                outs.append(canon(x, OUT[h[0]], m, index))
-            except Exception as e:
-                outs.append(canon_err(e))
-                break
-        s = enc_list(" > ", outs)
-        if c.get("direct"):
-            try:
-                d = canon(apply_hop(c["direct"], realize(c)), OUT[c["direct"][0]], m, index)
-            except Exception as e:
-                d = canon_err(e)
-            s += " || " + d
+        s = _run_path(c, dp)                       # in the state all earlier calls of this process left behind
+        if s.startswith("X:build"):
+            return s
+        # in the state of a new process: always when the imported module visibly carries state that a fresh copy does not,
+        # and for every SAMPLE-th case otherwise (state kept somewhere the fingerprint cannot see)
+        _state["count"] += 1
+        fresh = get_fresh()
+        if fingerprint(dp) != _state["virgin"] or _state["count"] % SAMPLE == 1:
+            f = _run_path(c, fresh)
+        else:
+            f = s
         via = c.get("via")
-        if via and c["hops"] and any(via.get(f) is not None for f in ("inst", "tpre", "cols")):
+        if via and c["hops"] and any(via.get(f_) is not None for f_ in ("inst", "tpre", "cols")):
             # the same first converter on the WHOLE container: convert(select(P)) must be select(convert(P))
             h0 = c["hops"][0]
             try:
@@ -584,6 +691,8 @@ def run_real(c):
             except Exception as e:
                 b = canon_err(e)
             s += " ## " + b
+        if f != s.split(" ## ")[0]:
+            s += " %% " + f
         return s
     if c["op"] == "pred":
         x = build(c["start"])
@@ -947,7 +1056,20 @@ def oracle(c, out):
         if out != want:
             fails.append(("pred:nestedness", "predicates report %s, frame holds series-valued cells: %s" % (out, want)))
         return fails
+    if c["op"] == "hist":
+        seq, _, alone = out.partition(" %% ")
+        if alone:
+            a, b = seq.split(" ; "), alone.split(" ; ")
+            k = next(i for i in range(len(a)) if a[i] != b[i])
+            fails.append((c["calls"][k]["hop"][0] + ":result-depends-on-earlier-calls",
+                          "call %d %r gives %s after the calls %r but %s in a fresh module state"
+                          % (k, c["calls"][k]["hop"], a[k][:160], [x["hop"] for x in c["calls"][:k]], b[k][:160])))
+        return fails
     panel = c.get("panel")
+    if c["op"] == "path" and " %% " in out and panel is None:
+        out2, _, freshtok = out.partition(" %% ")
+        fails.append((c["hops"][0][0] + ":result-depends-on-earlier-calls", "current state: %s ; fresh module state: %s" % (out2[:200], freshtok[:200])))
+        return fails
     if panel is None:
         return fails
     if c["op"] == "chk":
@@ -973,6 +1095,16 @@ def oracle(c, out):
             fails.append(("chk:names-not-preserved", "check_X%r returned names %r" % (f, d[1])))
         return fails
     # path
+    out, _, freshtok = out.partition(" %% ")
+    if freshtok:
+        cur = out.split(" ## ")[0].replace(" || ", " > ").split(" > ")
+        fre = freshtok.replace(" || ", " > ").split(" > ")
+        hops_ = list(c["hops"]) + ([c["direct"]] if c.get("direct") else [])
+        k = next((i for i in range(min(len(cur), len(fre))) if cur[i] != fre[i]), min(len(cur), len(fre)) - 1)
+        op = hops_[min(k, len(hops_) - 1)][0]
+        fails.append((op + ":result-depends-on-earlier-calls",
+                      "%r gives %s after earlier calls in the same process (first of them the perturbing sequence %r) but %s in a fresh module state"
+                      % (hops_[min(k, len(hops_) - 1)], cur[k][:160], [h for _, h in PERTURB], fre[k][:160])))
     out, _, bigtok = out.partition(" ## ")
     if out.startswith("X:build"):
         fails.append(("harness:start-container", out))
@@ -1008,17 +1140,29 @@ def oracle(c, out):
 
 
 def compare(real_out, model_out):
-    return real_out.split(" ## ")[0] == model_out
+    return real_out.split(" %% ")[0].split(" ## ")[0] == model_out
+
+
+def nontrivial_hist(out):
+    return any(not t.startswith("E:") for t in out.split(" %% ")[0].split(" ; "))
 
 
 def nontrivial(c, out):
+    if c["op"] == "hist":
+        return nontrivial_hist(out)
+    return _nontrivial(c, out)
+
+
+def _nontrivial(c, out):
     if c["op"] == "path":
-        first = out.split(" ## ")[0].split(" || ")[0].split(" > ")[0]
+        first = out.split(" %% ")[0].split(" ## ")[0].split(" || ")[0].split(" > ")[0]
         return c.get("panel") is not None and not first.startswith("E:") and not first.startswith("X:") and first != "-"
     return not out.startswith("E:")
 
 
 def features(c, out):
+    if c["op"] == "hist":
+        return ["op=hist", "calls=%d" % len(c["calls"])] + ["hop=" + x["hop"][0] for x in c["calls"]]
     f = ["op=" + c["op"], "start=" + c["start"]["k"]]
     if c["op"] == "path":
         f.append("len=%d" % len(c["hops"]))
@@ -1042,7 +1186,7 @@ def features(c, out):
                                                      "cols" if v.get("cols") is not None else None,
                                                      "time" if v.get("tpre") is not None else None,
                                                      ("layout-" + v["layout"]) if v.get("layout") else None) if x]))
-        for tok in out.split(" ## ")[0].replace(" || ", " > ").split(" > "):
+        for tok in out.split(" %% ")[0].split(" ## ")[0].replace(" || ", " > ").split(" > "):
             if tok.startswith("E:") or tok.startswith("X:"):
                 f.append("err=" + tok)
     elif out.startswith("E:"):
@@ -1565,6 +1709,30 @@ def gen_select(tier, rng, cases):
             cases.append(sel_case(rng, "M", {"vals": vals, "names": ["b", "a"]}, big_rep, {"inst": [1, 3], "how": how}, ops, {"levels": ("inst", "t")}))
 
 
+def gen_hist(tier, rng, cases):
+    """call histories: the same converters called several times in one process state with DIFFERENT optional arguments
+    (id-column / level / column names given, then omitted, then other ones); every call must give what it gives on its own"""
+    nr = 40 if tier == "quick" else 400
+    for _ in range(nr):
+        calls = []
+        for _ in range(rng.randrange(3, 7)):
+            n, c, t = rng.randrange(1, 4), rng.randrange(1, 4), rng.randrange(2, 4)
+            vals = mk_vals(rng, n, c, t)
+            names = mk_names(rng, c, rng.choice(["str", "int", "default"])) or default_names(c)
+            kind = rng.choice(["N", "N", "N", "A", "A", "M", "L", "T"])
+            lv = rng.choice(LEVELS)
+            lc = rng.choice(LONGCOLS)
+            rep = start_rep(rng, kind, vals, names if kind != "A" else None, cellkind=rng.choice(["S", "R"]), levels=lv, longcols=lc)
+            op = rng.choice(NEXT[kind])
+            st = start_state(rep, c)
+            cn = (lambda k: mk_names(rng, k, "str"))
+            hop, _ = pick_hop(rng, op, st, cn)
+            if op == "nl":
+                hop = ["nl"] + rng.choice([[None, None, None], ["case_id", "reading_id", "dim_id"], [None, "tt", None], ["ii", None, "dd"], [None, None, None]])
+            calls.append({"start": rep, "hop": hop})
+        cases.append({"op": "hist", "calls": calls, "start": calls[0]["start"]})
+
+
 def gen_cases(tier, rng):
     cases = []
     gen_small(tier, rng, cases)
@@ -1573,10 +1741,17 @@ def gen_cases(tier, rng):
     gen_malformed(tier, rng, cases)
     gen_snames(tier, rng, cases)
     gen_select(tier, rng, cases)
+    gen_hist(tier, rng, cases)
     return cases
 
 
 def shrink(c):
+    if c["op"] == "hist":
+        calls = c["calls"]
+        for i in range(len(calls)):
+            if len(calls) > 1:
+                yield dict(c, calls=calls[:i] + calls[i + 1:], start=(calls[:i] + calls[i + 1:])[0]["start"])
+        return
     if c["op"] != "path" or c.get("panel") is None:
         return
     hops = c["hops"]
